@@ -271,7 +271,7 @@ func (s StageObs) String() string {
 	}
 	return s.Reason + ":" + s.Codes + "/" + B01(s.Reject) + B01(s.Quarantine)
 }
-func (s StageObs) Pass() bool     { return s.Reason == "ok" }
+func (s StageObs) Pass() bool { return s.Reason == "ok" }
 
 // Run is one execution of the real check.
 type Run struct {
@@ -1238,7 +1238,16 @@ func genList(r *vh.Rng, pick func() Addr, trickName func() string, nAddr int, si
 		parts = append(parts, genMbox(r, a, trickName).render(r, fold))
 		remaining--
 	}
-	return strings.Join(parts, ","+fold()), gt
+	v := strings.Join(parts, ","+fold())
+	if !single && len(gt) > 0 && r.Chance(6) {
+		// obsolete syntax (RFC 5322 obs-mbox-list): empty list elements
+		if r.Bool() {
+			v += ","
+		} else {
+			v = "," + fold() + v
+		}
+	}
+	return v, gt
 }
 
 func fieldName(r *vh.Rng, name string) string {
@@ -1290,9 +1299,9 @@ func genHeader(r *vh.Rng, cs *Case, pick func() Addr, trickName func() string) {
 	switch k := r.Intn(20); {
 	case k == 0:
 		nFrom = 0
-	case k < 4:
+	case k < 3:
 		nFrom = 2
-	case k == 4:
+	case k == 3:
 		nFrom = 3
 	}
 	var firstFrom []Addr
@@ -1335,7 +1344,12 @@ func genHeader(r *vh.Rng, cs *Case, pick func() Addr, trickName func() string) {
 		v, gt := genList(r, spick, trickName, 1, true)
 		fields = append(fields, fld{"Sender", v, gt, 2})
 	}
-	fields = append(fields, fld{"To", "someone@example.net", nil, 0}, fld{"Subject", "hello", nil, 0})
+	subject := "hello"
+	if r.Chance(8) {
+		// a continuation line that looks like an author field is part of the Subject, not a field
+		subject = "hello\r\n " + r.Pick("From", "Sender") + ": <" + pick().String() + ">"
+	}
+	fields = append(fields, fld{"To", "someone@example.net", nil, 0}, fld{"Subject", subject, nil, 0})
 	if r.Bool() {
 		fields = append(fields, fld{"Message-ID", "<1@example.net>", nil, 0})
 	}
